@@ -24,7 +24,7 @@ C05_CODES = {"2", "3", "4", "7", "8", "9"}
 
 
 def cfg_str(cfg):
-    return "%d %d %d" % cfg
+    return "%d %d %d" % tuple(cfg[:3])
 
 
 def is_sorted_step(ev):
@@ -214,6 +214,10 @@ def run_check(ctx, prop_id, cases, own_codes, nontrivial_classes, correspondence
     mtoks, mcr = run_model(model_exe, cases)
     for line, err in mcr:
         rep.violation("extracted model failed on `%s`: %s" % (line[:300], err[-300:]), {"input": line, "names": "model driver"}, found_input=False)
+    # histories with stalled connections (4th cfg component): the model admits B only for a connection without open calls and
+    # lets a stalled connection write nothing; the generator only approximates that, so drop what the model calls ill-formed
+    keep = [i for i in range(len(cases)) if not (len(cases[i][1]) > 3 and "!" in mtoks[i])]
+    cases, mtoks = [cases[i] for i in keep], [mtoks[i] for i in keep]
     impl, bad = run_impl(info["daemon"], cases)
     for cfg, rc, err, hists in bad:
         rep.violation("dbus-daemon ended with status %s / sanitizer or assertion output while replaying %d histories: %s" % (rc, len(hists), err[-700:]),
@@ -230,7 +234,7 @@ def run_check(ctx, prop_id, cases, own_codes, nontrivial_classes, correspondence
         completed[i] = [merge_tokens(t, h) if h != "-" else t for t, h in zip(itoks[i], hid + ["-"] * len(itoks[i]))]
     otoks, ocr = run_oracle(model_exe, [cases[i] for i in valid], [completed[i] for i in valid])
     oracle = dict(zip(valid, otoks))
-    dist, nontrivial, steps_total, tainted, disagreements, illformed, pipelined, burst_bytes = {}, set(), 0, 0, 0, 0, 0, 0
+    dist, nontrivial, steps_total, tainted, disagreements, illformed, pipelined, burst_bytes, stalls = {}, set(), 0, 0, 0, 0, 0, 0, 0
     for i, (name, cfg, ev) in enumerate(cases):
         replay = {"cfg": list(cfg), "events": ev, "name": name,
                   "how": "python3 tools/check.py %s --replay <this file>  (or: hist/oracle lines of build/ml/routing/model)" % prop_id}
@@ -250,6 +254,7 @@ def run_check(ctx, prop_id, cases, own_codes, nontrivial_classes, correspondence
         mt = mvis[i]
         it = itoks[i]
         burst_bytes += notes.get("burst_bytes", 0)
+        stalls += sum(1 for e in ev if e[0] == "B")
         oc = oracle[i]
         if "!" in mt:
             illformed += 1
@@ -292,4 +297,4 @@ def run_check(ctx, prop_id, cases, own_codes, nontrivial_classes, correspondence
             rep.violation("model and implementation agree but break the specification at step %d `%s` -> `%s`: %s" % (j, ev[j], it[j], CODE_TEXT.get(c, c)),
                           dict(replay, impl=it, model=mt, oracle=oc, step=j))
     return {"cases": cases, "dist": dist, "nontrivial": nontrivial, "steps": steps_total, "tainted": tainted,
-            "disagreements": disagreements, "illformed": illformed, "pipelined": pipelined, "burst_bytes": burst_bytes, "mtoks": mtoks, "itoks": itoks, "oracle": oracle}
+            "disagreements": disagreements, "illformed": illformed, "pipelined": pipelined, "burst_bytes": burst_bytes, "stalls": stalls, "mtoks": mtoks, "itoks": itoks, "oracle": oracle}
